@@ -312,7 +312,9 @@ def rule_d(ctx: Ctx) -> None:
     # sandbox without base_url: the base is the directory of the source
     init = ctx.idx.func(f'{RES}.__init__')
     src = text(init.node)
-    ok = "allow == 'sandbox' and base_url is None" in src and 'base_url = os.path.dirname(normalize_url(source))' in src
+    from .common import bool_atoms as _atoms
+    ok = any({"allow == 'sandbox'", 'base_url is None'} <= set(_atoms(t.test)) for t in ast.walk(init.node) if isinstance(t, ast.If)) \
+        and 'base_url = os.path.dirname(normalize_url(source))' in src
     ctx.ob(rule, 'sandbox without base_url uses the directory of a local source, and refuses anything else', init.loc(), ok, '',
            key=f'{RES}.__init__|sandbox-default-base')
     ctx.explain('C12.d: the prefix operand of the sandbox startswith test must provably end with "/" (reaching definitions + the '
@@ -664,7 +666,9 @@ def rule_j(ctx: Ctx) -> None:
     # premise: the fallback exists (otherwise a missing base URL would be harmless)
     init = idx.func(f'{RES}.__init__')
     src = text(init.node)
-    premise = "allow == 'sandbox' and base_url is None" in src and 'os.path.dirname(normalize_url(source))' in src
+    from .common import bool_atoms as _atoms
+    premise = any({"allow == 'sandbox'", 'base_url is None'} <= set(_atoms(t.test)) for t in ast.walk(init.node) if isinstance(t, ast.If)) \
+        and 'os.path.dirname(normalize_url(source))' in src
     ctx.ob(rule, 'XMLResource.__init__: sandbox without base_url falls back to the directory of the source (premise of this rule)', init.loc(), premise, '',
            key='XMLResource.__init__|sandbox-fallback', nontrivial=False)
     n = 0
@@ -707,6 +711,23 @@ def rule_j(ctx: Ctx) -> None:
                                      if instance_side else f'`{t}` is not a schema-side base URL')
             ctx.ob(rule, f'{short}: `{recv}.{c.func.attr}(…)` fetches inside the sandbox of the schema set', f.loc(c), ok, det, key=f'{q}|load|{c.func.attr}|{recv}')
     ctx.floor(rule, 'calls loading a further schema into existing maps', n, 10)
+    # the package-level API: a schema named by a location hint of the document is probed and built with the base URL of the document when the
+    # caller gives none (otherwise, again, the hinted file is its own sandbox)
+    for q, callee, arg in (('xmlschema.resources.fetchers.fetch_schema_locations', 'XMLResource', 'location'), ('xmlschema.documents.get_resource_schema', 'cls', 'schema_location')):
+        f = idx.func(q)
+        ctx.analysed(q)
+        g = cfg_of(ctx, f)
+        sites = [(nd, c) for nd, c in call_nodes(g, lambda c: text(c.func) == callee and c.args and text(c.args[0]) == arg)]
+        dom = g.dominators(kinds='nTF')
+        for nd, c in sites:
+            n += 1
+            fills = [x for x in g.nodes if x.kind == 'if' and 'base_url' in text(x.ast.test) and 'is None' in text(x.ast.test)
+                     and any(isinstance(y, ast.Assign) and 'base_url' in text(y.targets[0]) and text(y.value).endswith('.base_url') for s_ in x.ast.body for y in ast.walk(s_))
+                     and x in dom[nd]]
+            ok = bool(fills)
+            ctx.ob(rule, f'{q.split(".")[-1]}: `{callee}({arg}, …)` gets the base URL of the XML document when the caller gave none', f.loc(c), ok,
+                   '' if ok else 'with allow=\'sandbox\' and no base_url the hinted schema is opened with base None and becomes its own sandbox base: '
+                   'xmlschema.is_valid(\'/sandbox/doc.xml\', allow=\'sandbox\') with xsi:noNamespaceSchemaLocation="/outside/evil.xsd" loads that file', key=f'{q}|hint-base')
     # a blocked on-demand location is skipped, like a blocked import
     ln = idx.func('xmlschema.loaders.SchemaLoader.load_namespace')
     hs = [h for t in ast.walk(ln.node) if isinstance(t, ast.Try) for h in t.handlers]
@@ -758,4 +779,49 @@ def rule_k(ctx: Ctx) -> None:
                 '`maps is self.maps` (edge-cut reachability).')
 
 
-RULES = [rule_a, rule_b, rule_c, rule_d, rule_e, rule_f, rule_g, rule_h, rule_i, rule_j, rule_k]
+def rule_l(ctx: Ctx) -> None:
+    """A sandbox always has a base.  access_control() applies the containment test only when `self._base_url is not None`, so the sandbox
+    mode is effective only because XMLResource.__init__ never lets allow='sandbox' through without a base URL: whatever the kind of the
+    source, a missing base URL is either derived from the (local) source or refused."""
+    rule = 'C12.l'
+    from .common import atom_forces, bool_atoms
+    f = ctx.idx.func(f'{RES}.__init__')
+    ctx.analysed(f.qualname)
+    g = cfg_of(ctx, f)
+    SB, NB = "allow == 'sandbox'", 'base_url is None'
+    tests = [x for x in g.nodes if x.kind == 'if' and {SB, NB} <= set(bool_atoms(x.ast.test))]
+    ctx.floor(rule, 'sandbox-without-base tests in XMLResource.__init__', len(tests), 1)
+    for x in tests:
+        atoms = bool_atoms(x.ast.test)
+        import itertools
+        from .common import bool_eval
+        free = [a for a in atoms if a not in (SB, NB)]
+        hole = None
+        for bits in itertools.product((False, True), repeat=len(free)):
+            env = {SB: True, NB: True}
+            env.update(zip(free, bits))
+            if not bool_eval(x.ast.test, env):
+                hole = [f'`{a}` is {b}' for a, b in zip(free, bits)]
+                break
+        ok = hole is None
+        ctx.ob(rule, 'XMLResource.__init__: allow=\'sandbox\' without a base URL is handled for every kind of source', f.loc(x.ast), ok,
+               '' if ok else f'the guard is skipped when {"; ".join(hole)}: the resource is created with _base_url=None, access_control() then applies no containment test and every '
+               'included / imported location becomes its own sandbox - a main schema given as open file, StringIO or parsed tree loads /outside/evil.xsd', key='XMLResource.__init__|sandbox-needs-base|guard')
+        # under the guard: raise, or give base_url a value
+        starts = [m for m, lab in g.succ[x] if lab == 'T']
+        sets = [n_ for n_ in g.nodes if n_.kind == 'stmt' and isinstance(n_.ast, ast.Assign) and any(text(t) == 'base_url' for t in n_.ast.targets)]
+        join = [m for m, lab in g.succ[x] if lab == 'F']
+        from .common import reach_cut
+        seen = reach_cut(g, starts, set(), avoid=sets, kinds='nTF')
+        leak = any(j in seen for j in join)
+        ctx.ob(rule, 'XMLResource.__init__: under that guard the constructor raises or derives a base URL', f.loc(x.ast), bool(sets) and not leak, '',
+               key='XMLResource.__init__|sandbox-needs-base|derive-or-raise')
+    # the reader of the invariant
+    ac = ctx.idx.func(f'{RES}.access_control')
+    relies = any("self._allow == 'sandbox'" in text(t.test) and 'self._base_url is not None' in text(t.test) for t in ast.walk(ac.node) if isinstance(t, ast.If))
+    ctx.ob(rule, 'access_control applies the containment test only with a base URL (the reader of the invariant)', ac.loc(), relies, '', key='access_control|needs-base', nontrivial=False)
+    ctx.explain('C12.l: truth table of the sandbox-without-base guard of XMLResource.__init__ (with allow == \'sandbox\' and base_url is None fixed true the test holds for every '
+                'value of its other atoms); its true branch raises or assigns base_url on every path.')
+
+
+RULES = [rule_a, rule_b, rule_c, rule_d, rule_e, rule_f, rule_g, rule_h, rule_i, rule_j, rule_k, rule_l]
